@@ -92,6 +92,8 @@ pub struct Model {
     pub local_alias: BTreeMap<u16, String>,
     /// what the application bound through accepted sends on this connection, sent or only queued
     pub app_alias: BTreeMap<u16, String>,
+    /// QoS>0 publishes accepted between the CONNECT and the CONNACK of the current handshake
+    pub queued_connecting: usize,
     pub ka_ms: u64,
     pub ska_ms: Option<u64>,
     pub user_ms: Option<u64>,
@@ -113,6 +115,7 @@ impl Model {
             is_client: false,
             persistent: false,
             conn_no: 0,
+            queued_connecting: 0,
             ids: BTreeSet::new(),
             out: vec![],
             store: vec![],
@@ -154,6 +157,7 @@ impl Model {
     }
     fn new_connection(&mut self) {
         self.conn_no += 1;
+        self.queued_connecting = 0;
         self.rm_send = None;
         self.rm_recv = None;
         self.mps_send = None;
